@@ -243,6 +243,12 @@ func hasCaseInsensitivePath(fs filesys.Filesys, target string) (bool, error) {
 func hasCaseInsensitiveMatch(candidates []string, target string) (bool, string) {
 	found := false
 	exactCaseName := ""
+	// Prefer the candidate that is called exactly |target|
+	for _, s := range candidates {
+		if s == target {
+			return true, s
+		}
+	}
 	for _, s := range candidates {
 		if strings.EqualFold(target, s) {
 			exactCaseName = s
